@@ -100,6 +100,27 @@ func clockDriver(raw json.RawMessage) (any, error) {
 	return out, nil
 }
 
+// clock_periods: the period the code itself reports for each frequency (decimal
+// strings; a panic is reported as "panic: ...").
+func clockPeriods(raw json.RawMessage) (any, error) {
+	var in struct {
+		Fs []string `json:"fs"`
+	}
+	if err := json.Unmarshal(raw, &in); err != nil {
+		return nil, err
+	}
+	out := make([]string, len(in.Fs))
+	for i, fs := range in.Fs {
+		fv, err := u64(fs)
+		if err != nil {
+			return nil, fmt.Errorf("frequency %d: %v", i, err)
+		}
+		out[i] = callU64(func() uint64 { return uint64(timing.Freq(fv).Period()) })
+	}
+	return map[string]any{"periods": out}, nil
+}
+
 func init() {
 	reg.Register("clock", clockDriver)
+	reg.Register("clock_periods", clockPeriods)
 }
